@@ -660,5 +660,6 @@ func c08Ent(c *Ctx) {
 func runC08(c *Ctx) {
 	c08Cmp(c)
 	c08Det(c)
+	c08DetSrc(c)
 	c08Ent(c)
 }
